@@ -19,7 +19,7 @@ func init() {
 			"Attributes := Arguments[2], ESDTFreeze/UnFreeze -> Properties; freshly built entries may set only Value and a constant Type (the empty default) except in ESDTNFTCreate. No transfer routine writes any metadata field. R2 (the whole entry moves): the object " +
 			"handed to the marshaller for a credit or a shipment is the entry read from the sender resp. decoded from the payload — never the destination's current entry or a fresh literal. R3 (hash check): each NFT credit is cut by {current entry has no " +
 			"metadata, Equal(current.Hash, incoming.Hash)}. R4 (creation bindings): the created literal binds Name<-A[2], Creator<-CallerAddr, Royalties<-r, Hash<-A[4], Attributes<-A[5], URIs<-A[6:], with r the number decoded from A[3], and its save is cut by " +
-			"not(r > MaxRoyalty). R5 (one entry per nonce): below the NFT functions every balance-class key is prefix‖token‖Bytes(nonce) (shared with C05-R3). Does NOT decide: byte equality across a protobuf hop (C14's tables), chains of transfers as executions.",
+			"not(r > MaxRoyalty). R5 (one entry per nonce): below the NFT functions every balance-class key is prefix‖token‖Bytes(nonce) (shared with C05-R3). R2 also: a credit that saves the destination's own entry back under a key with a nonce part must first take the arriving TokenMetaData over (equal hashes do not mean equal URIs / attributes). Does NOT decide: byte equality across a protobuf hop (C14's tables), chains of transfers as executions.",
 		Trusted: []string{"A-deps (the marshaller does not alter the entry)", "T-REG names"},
 		Rules:   []func(*Ctx){c08r1, c08r2, c08r4, c08r5},
 	})
